@@ -40,7 +40,7 @@ fn main() {
         }
         let obs: util::Obs = match family {
             "win" => win::run(line),
-            "iovw" => iovw::run(line),
+            "iovw" | "geo" => iovw::run(line),
             "nfs" => nfs::run(line),
             "chunk" => stream::run_chunk(line),
             "reader" => stream::run_reader(line),
